@@ -18,22 +18,25 @@
 Assumes data is aligned to 4 bytes. If not aligned  then all Bitstream
 accesses will be unaligned and hence  costlier. Since this is codec memory that
 holds emulation prevented data, assumption of aligned to 4 bytes is valid */
+/* Next Bitstream word in big endian order. Only bytes below end (= data + numbytes of dec_bits_init) are
+loaded; the bytes a word lacks because the Bitstream ends read as 0 */
+static uint32_t dec_bits_load_word(const uint32_t *buf, const uint8_t *end) {
+    const uintptr_t p = (uintptr_t)buf;
+    const uintptr_t e = (uintptr_t)end;
+    uint32_t        word = 0;
+    for (uintptr_t i = 0; i < 4; i++) word = (word << 8) | ((p + i < e) ? *(const uint8_t *)(p + i) : 0);
+    return word;
+}
+
 void dec_bits_init(Bitstrm *bs, const uint8_t *data, size_t numbytes) {
-    uint32_t  cur_word;
-    uint32_t  nxt_word;
-    uint32_t  temp;
     uint32_t *buf;
     buf          = (uint32_t *)data;
-    temp         = *buf++;
-    cur_word     = TO_BIG_ENDIAN(temp);
-    temp         = *buf++;
-    nxt_word     = TO_BIG_ENDIAN(temp);
     bs->bit_ofst = 0;
     bs->buf_base = (uint8_t *)data;
-    bs->buf      = buf;
-    bs->cur_word = cur_word;
-    bs->nxt_word = nxt_word;
     bs->buf_max  = (uint8_t *)data + numbytes + 8;
+    bs->cur_word = dec_bits_load_word(buf++, data + numbytes);
+    bs->nxt_word = dec_bits_load_word(buf++, data + numbytes);
+    bs->buf      = buf;
     return;
 }
 
@@ -43,7 +46,16 @@ uint32_t dec_get_bits(Bitstrm *bs, uint32_t numbits) {
     uint32_t bits_read;
     if (0 == numbits)
         return 0;
-    GET_BITS(bits_read, bs->buf, bs->bit_ofst, bs->cur_word, bs->nxt_word, numbits);
+    /* GET_BITS with the refill bounded by the end of the Bitstream (buf_max - 8) */
+    bits_read = (bs->cur_word << bs->bit_ofst) >> (WORD_SIZE - numbits);
+    bs->bit_ofst += numbits;
+    if (bs->bit_ofst > WORD_SIZE)
+        bits_read |= SHR(bs->nxt_word, (DBL_WORD_SIZE - bs->bit_ofst));
+    if (bs->bit_ofst >= WORD_SIZE) {
+        bs->cur_word = bs->nxt_word;
+        bs->nxt_word = dec_bits_load_word(bs->buf++, bs->buf_max - 8);
+        bs->bit_ofst -= WORD_SIZE;
+    }
     return bits_read;
 }
 
